@@ -156,3 +156,107 @@ func c13Cut(c *ev.Ctx, call c13CutCall, class string) {
 }
 
 var _ = ssh.Marshal
+
+// c13Hold: the caller keeps the result of one operation while a second operation runs on the same connection; the kept
+// result must not change (results are independent of later requests).
+func c13Hold(c *ev.Ctx, first string, second c13CutCall) {
+	c.Eval()
+	k := c13Case{HoldOp: first, CutOp: second.Name}
+	sig, _ := fix.Signer(fK1).Sign(nil, []byte("data"))
+	st := &stubAgent{
+		Keys:    []*agent.Key{{Format: fix.Pub(fK1).Type(), Blob: fix.Pub(fK1).Marshal(), Comment: "one"}, {Format: fix.Pub(fK2).Type(), Blob: fix.Pub(fK2).Marshal(), Comment: "two"}},
+		Sig:     sig,
+		RawResp: append([]byte{0xee}, make([]byte, 299)...),
+		Slots:   []string{"9a", "9c"},
+		Cert:    c13Certs()[0],
+	}
+	addr := fmt.Sprintf("/verif/yubi-hold-%d", worldSeq.Add(1))
+	sp := &servedPeer{}
+	vnet.Register(addr, servedConn(st, sp))
+	defer vnet.Unregister(addr)
+	cl, err := yubiagent.NewClient(addr)
+	if err != nil {
+		c.Violation("C13:harness:newclient", err.Error(), k)
+		return
+	}
+	defer cl.Close()
+	var live [][]byte
+	var ferr error
+	p := ev.Guard(func() {
+		switch first {
+		case "List":
+			var ks []*agent.Key
+			ks, ferr = cl.List()
+			for _, x := range ks {
+				live = append(live, x.Blob)
+			}
+		case "Sign":
+			var s *ssh.Signature
+			s, ferr = cl.Sign(fix.Pub(fK1), []byte("data"))
+			if s != nil {
+				live = append(live, s.Blob)
+			}
+		case "Extension":
+			var r []byte
+			r, ferr = cl.Extension("ext@x", []byte("payload"))
+			live = append(live, r)
+		case "Forward":
+			var r []byte
+			r, ferr = cl.Forward([]byte{0xc9, 1, 2, 3})
+			live = append(live, r)
+		case "ReadSlot":
+			crt, e := cl.ReadSlot("9a")
+			ferr = e
+			if crt != nil {
+				live = append(live, crt.Raw)
+			}
+		case "AttestSlot":
+			crt, e := cl.AttestSlot("9a")
+			ferr = e
+			if crt != nil {
+				live = append(live, crt.Raw)
+			}
+		}
+	})
+	if p != "" || ferr != nil || len(live) == 0 {
+		c.Violation("C13:harness:hold-first-op", fmt.Sprintf("%s: panic=%q err=%v results=%d", first, p, ferr, len(live)), k)
+		return
+	}
+	var snap [][]byte
+	for _, l := range live {
+		snap = append(snap, append([]byte{}, l...))
+	}
+	// the second operation answers with different content of the same size
+	st.RawResp = append([]byte{0xee}, bytesOf(0x77, 299)...)
+	st.Keys = []*agent.Key{{Format: fix.Pub(fK2).Type(), Blob: fix.Pub(fK2).Marshal(), Comment: "two"}, {Format: fix.Pub(fK1).Type(), Blob: fix.Pub(fK1).Marshal(), Comment: "one"}}
+	st.Cert = c13Certs()[1]
+	done := make(chan struct{})
+	go func() { p = ev.Guard(func() { second.Run(cl) }); close(done) }()
+	select {
+	case <-done:
+	case <-time.After(60 * time.Second):
+		c.Violation("C13:operation-hangs:"+second.Name, fmt.Sprintf("%s after %s did not return within 60 s", second.Name, first), k)
+		return
+	}
+	if p != "" {
+		c.Violation("C13:crash:"+ev.PanicSite(p), fmt.Sprintf("%s after %s crashed:\n%s", second.Name, first, p), k)
+		return
+	}
+	c.Outcome("hold/ok")
+	c.Nontrivial("hold|" + first + "|" + second.Name)
+	for i := range live {
+		if string(live[i]) != string(snap[i]) {
+			c.Outcome("hold/changed")
+			c.Violation("C13:returned-value-changed-later:"+first, fmt.Sprintf("the %d-byte value returned by %s changed while the caller held it, during the later %s on the same connection", len(snap[i]), first, second.Name), k)
+			return
+		}
+	}
+}
+
+func bytesOf(b byte, n int) []byte {
+	out := make([]byte, n)
+	for i := range out {
+		out[i] = b
+	}
+	return out
+}
